@@ -95,7 +95,7 @@ def main():
             if r["rc"]:
                 print(pid, r["rc"], r["first"])
     elif cmd == "preserving":
-        sys.exit(preserving())
+        sys.exit(preserving(sys.argv[2:]))
     elif cmd == "all":
         root = os.path.join(HERE, "seeded")
         results = {}
@@ -117,14 +117,17 @@ def main():
             json.dump(results, fh, indent=1, sort_keys=True)
 
 
-def preserving():
-    """behaviour-preserving refactorings (sub-agent written, equivalence demonstrated by their equiv.py): no check may answer 1"""
+def preserving(only=()):
+    """behaviour-preserving refactorings (sub-agent written, equivalence demonstrated by their equiv.py): no check may answer 1.
+    With case names given, only those are run and their rows replace the ones in RESULTS.json"""
     root = os.path.join(HERE, "preserving")
-    names = [n for n in sorted(os.listdir(root)) if os.path.isfile(os.path.join(root, n, "patch.diff"))]
+    names = [n for n in sorted(os.listdir(root)) if os.path.isfile(os.path.join(root, n, "patch.diff")) and (not only or n in only)]
     import multiprocessing
     with multiprocessing.Pool(16) as pool:
         allres = dict(zip(names, pool.map(check, [os.path.join(root, n) for n in names])))
     results, bad = {}, 0
+    if only and os.path.exists(os.path.join(root, "RESULTS.json")):
+        results = json.load(open(os.path.join(root, "RESULTS.json")))
     for name in names:
         res = allres[name]
         alarms = sorted(p for p, r in res.items() if r["rc"] == 1)
